@@ -169,6 +169,8 @@ fn run_clock_error_bound_poller(
                 };
 
                 #[cfg(aws_clock_bound_verif)]
+                verif_rt::note("poller:msg", &format!("{:?}", message));
+                #[cfg(aws_clock_bound_verif)]
                 verif_rt::fault_point("poller:send");
 
                 match ctx.dbox.send(&ChannelId::ShmWriter, message) {
